@@ -498,6 +498,45 @@ impl Runner {
         quinn_proto::crypto::HmacKey::sign(&key, &dcid, &mut sig);
         let mut token = [0u8; 16];
         token.copy_from_slice(&sig[..16]);
+        if kind == "ticket" {
+            // the reset token among the transport parameters remembered with the session ticket (it
+            // belongs to a connection ID of the EARLIER connection), in a datagram shaped like an Initial
+            // for the victim's own connection ID: a resuming client must not honour it
+            let old = self.w.client_cfgs.first().and_then(|c| c.ticket.as_ref()).and_then(|t| tp_reset_token(&t.params));
+            let mut scid: Option<Vec<u8>> = None;
+            for d in self.w.history.iter().rev() {
+                if d.src != victim_addr || d.data.len() < 7 || d.data[0] & 0x80 == 0 {
+                    continue;
+                }
+                let dl = d.data[5] as usize;
+                if d.data.len() > 6 + dl {
+                    let sl = d.data[6 + dl] as usize;
+                    if d.data.len() >= 7 + dl + sl {
+                        scid = Some(d.data[7 + dl..7 + dl + sl].to_vec());
+                        break;
+                    }
+                }
+            }
+            let (Some(old), Some(scid)) = (old, scid) else {
+                self.w.log(json!({"ev":"ResetLike","t":t,"ok":false}));
+                return;
+            };
+            let mut data = vec![0xc0 | (toycrypto::mix(t) & 0x0f) as u8, 0, 0, 0, 1, scid.len() as u8];
+            data.extend_from_slice(&scid);
+            data.push(0);
+            data.push(0);          // token length
+            let total = len.max(60);
+            let body = total - data.len() - 2;
+            data.extend_from_slice(&[0x40 | (body >> 8) as u8, (body & 0xff) as u8]);      // length field
+            while data.len() + 16 < total {
+                data.push((toycrypto::mix(0x99 + data.len() as u64) & 0xff) as u8);
+            }
+            data.extend_from_slice(&old);
+            let src = self.w.nodes[peer].addr;
+            let id = self.w.inject(src, victim_addr, data, "reset", u64::MAX, 0);
+            self.w.log(json!({"ev":"ResetLike","t":t,"ok":true,"to":to,"c":c,"kind":kind,"len":len,"id":id,"exact":false}));
+            return;
+        }
         match kind.as_str() {
             "exact" => {}
             "flip" => token[15] ^= 1,
@@ -628,4 +667,37 @@ impl Runner {
             }
         }));
     }
+}
+
+
+/// stateless_reset_token (id 0x02) of encoded transport parameters
+fn tp_reset_token(p: &[u8]) -> Option<[u8; 16]> {
+    fn var(p: &[u8], i: &mut usize) -> Option<u64> {
+        let b = *p.get(*i)?;
+        let n = 1usize << (b >> 6);
+        if *i + n > p.len() {
+            return None;
+        }
+        let mut v = (b & 0x3f) as u64;
+        for k in 1..n {
+            v = (v << 8) | p[*i + k] as u64;
+        }
+        *i += n;
+        Some(v)
+    }
+    let mut i = 0;
+    while i < p.len() {
+        let id = var(p, &mut i)?;
+        let len = var(p, &mut i)? as usize;
+        if i + len > p.len() {
+            return None;
+        }
+        if id == 2 && len == 16 {
+            let mut t = [0u8; 16];
+            t.copy_from_slice(&p[i..i + 16]);
+            return Some(t);
+        }
+        i += len;
+    }
+    None
 }
